@@ -1364,8 +1364,21 @@ def expected_values(tree, rank_is_new):
     return d
 
 
-def e2e_run(ctx: Ctx, spec, W2):
-    """take with W ranks, restore / get_state_dict_for_key / read_object with W2 ranks; returns (failures, sc-like)"""
+class _PermGroup:
+    """stands for a process group given by the application whose rank numbering differs from the default group's
+    (lib.world: `_verif_perm[world rank] = rank index in this group`; 0 stays 0)"""
+    def __init__(self, perm):
+        self._verif_perm = list(perm)
+
+    def __repr__(self):
+        return f"<application group, ranks renumbered {self._verif_perm}>"
+
+
+def e2e_run(ctx: Ctx, spec, W2, perm=None):
+    """take with W ranks, restore / get_state_dict_for_key / read_object with W2 ranks; returns (failures, sc-like).
+    With `perm` (W2 == W): the application passes its OWN process group, in which world rank q has rank index perm[q], to
+    async_take and restores through the Snapshot object wait() returned: 'the rank index that saved it' is the index in
+    THAT group on both sides."""
     import shutil
 
     import torch  # noqa
@@ -1382,7 +1395,14 @@ def e2e_run(ctx: Ctx, spec, W2):
     root = ctx.scratch("e2e")
     fails = []
     try:
+        group = _PermGroup(perm) if perm else None
+        handles = {}
+
         def take(rank):
+            if perm:
+                app = {key: as_stateful(StateDict, realize(tree)) for key, tree in trees[perm[rank]].items()}
+                handles[rank] = Snapshot.async_take(path=root, app_state=app, replicated=[_glob_escape(p) for p in rep_paths], pg=group).wait()
+                return True
             app = {key: as_stateful(StateDict, realize(tree)) for key, tree in trees[rank].items()}
             Snapshot.take(path=root, app_state=app, replicated=[_glob_escape(p) for p in rep_paths])
             return True
@@ -1399,17 +1419,17 @@ def e2e_run(ctx: Ctx, spec, W2):
         def restore(rank):
             app = {key: as_stateful(Rec, realize(union_tree(node), sentinel=True)) for key, node in spec["statefuls"]}
             before = {key: sentinel_tensors(app[key].data, _encode(key)) for key in app}
-            Snapshot(root).restore(app)
+            (handles[rank] if perm else Snapshot(root)).restore(app)
             # get_state_dict_for_key filters the manifest by the raw (un-encoded) key: it cannot find a stateful whose
             # key contains '/', '%' or is '.'/'..' on ANY rank - not a who-can-load-what matter, so only plain keys
-            gsd = {key: Snapshot(root).get_state_dict_for_key(key) for key in sorted(app) if _encode(key) == key}
+            gsd = {key: (handles[rank] if perm else Snapshot(root)).get_state_dict_for_key(key) for key in sorted(app) if _encode(key) == key}
             return ({key: getattr(app[key], "loaded", None) for key in app}, before, gsd)
         w2 = World(W2)
         results, errs = w2.run(restore)
         md = Snapshot(root).metadata
         snap = Snapshot(root)
         for rank in range(W2):
-            base = rank if rank < W else 0
+            base = (perm[rank] if perm else rank) if rank < W else 0
             if errs[rank] is not None:
                 fails.append((f"C07:e2e-restore-raises:{type(errs[rank]).__name__}:{'new' if rank >= W else 'existing'}-rank",
                               f"restore on rank {rank} of W'={W2} (saved with W={W}) raised {errs[rank]!r}"[:400]))
@@ -1551,6 +1571,15 @@ def check_e2e(ctx: Ctx, res: Result, with_model: bool):
         meta.append(spec)
         if GEN_OK["ok"]:
             c_gen.append(gen_views_case(md, uid, list(reversed(queries)), False))
+    # the application's own process group with a different rank numbering, restore through the returned Snapshot object
+    for W in ((3, 4) if not ctx.thorough else (3, 4, 4, 5, 6)):
+        perm = [0] + [1 + (k + 1) % (W - 1) for k in range(W - 1)]
+        spec = Gen(rng, W, sharded=False).spec()
+        spec["yaml"] = 0
+        res.case({"kind": "e2e-group", "spec": spec, "perm": perm}, nontrivial=True)
+        res.count("b.W_W2", f"{W}->{W} own-group")
+        fails, _ = e2e_run(ctx, spec, W, perm=perm)
+        record(res, fails, {"kind": "e2e", "spec": spec, "W2": W, "perm": perm})
     if not with_model:
         return
     run_gen(res, CORRESPONDENCES[11], "C07_ge2e", "obs_views_gen", c_gen, GEN_VIEWS_TY, meta, shard=12)
@@ -1609,7 +1638,7 @@ def search(ctx: Ctx, broken) -> Result:
 
 def replay(ctx: Ctx, data):
     if data.get("kind") == "e2e":
-        fails, _ = e2e_run(ctx, data["spec"], data["W2"])
+        fails, _ = e2e_run(ctx, data["spec"], data["W2"], perm=data.get("perm"))
     else:
         sc = Scenario(data["spec"])
         fails = oracle_synthetic(sc, data["rank"], data.get("reqs", []), Uids())
